@@ -79,14 +79,14 @@ Section Sound.
       leafsem (R fresh sir sir (qadd la ra)) x = Some y;
     lf_rrT : forall il sil sol la ir jr sjr sojr ra x y1 y,
       leafsem (Wrap ir WQURotT (R jr sjr sojr ra)) x = Some y1 -> leafsem (R il sil sol la) y1 = Some y ->
-      leafsem (R fresh sojr sojr (qsub la ra)) x = Some y;
+      leafsem (R fresh sjr sjr (qsub la ra)) x = Some y;
     lf_rTr : forall il jl sjl sojl la ir sir sor ra x y1 y,
       leafsem (R ir sir sor ra) x = Some y1 -> leafsem (Wrap il WQURotT (R jl sjl sojl la)) y1 = Some y ->
       leafsem (R fresh sir sir (qsub ra la)) x = Some y;
     lf_rTrT : forall il jl sjl sojl la ir jr sjr sojr ra x y1 y,
       leafsem (Wrap ir WQURotT (R jr sjr sojr ra)) x = Some y1 ->
       leafsem (Wrap il WQURotT (R jl sjl sojl la)) y1 = Some y ->
-      leafsem (R fresh sojr sojr (qsub (qneg la) ra)) x = Some y;
+      leafsem (R fresh sjr sjr (qsub (qneg la) ra)) x = Some y;
     lf_rot_hwp : forall il sil sol pl r x y1 y, is_a r [CHWP] = true ->
       denote r x = Some y1 -> leafsem (Prim il CQURotation sil sol pl) y1 = Some y ->
       exists y2, leafsem (Wrap fresh WQURotT (Prim il CQURotation sil sol pl)) x = Some y2 /\ denote r y2 = Some y;
@@ -517,14 +517,14 @@ Section Sound.
           * destruct r as [ir cr sir sor pr| | | | | |]; try discriminate. cbn in Ear.
             destruct cr; try discriminate. destruct pr; try discriminate. inversion Ear; subst a.
             inversion Ha; subst new. intros x y Hch. apply chain2 in Hch as (y1 & H1 & H2).
-            cbn [Denote.denote] in H1, H2. rewrite chain_single. cbn [Denote.denote in_struct structs fst].
+            cbn [Denote.denote] in H1, H2. rewrite chain_single. cbn [Denote.denote in_struct structs fst square_cls].
             eapply (lf_rr LF); eauto.
           * destruct r as [|ir wr er| | | | |]; try discriminate. destruct wr; try discriminate.
             destruct (angles_of er) as [ra|] eqn:Eer; [|discriminate].
             destruct er as [jr cr sjr sojr pr| | | | | |]; try discriminate. cbn in Eer.
             destruct cr; try discriminate. destruct pr; try discriminate. inversion Eer; subst a.
             inversion Ha; subst new. intros x y Hch. apply chain2 in Hch as (y1 & H1 & H2).
-            cbn [Denote.denote] in H1, H2. rewrite chain_single. cbn [Denote.denote in_struct structs fst snd].
+            cbn [Denote.denote] in H1, H2. rewrite chain_single. cbn [Denote.denote in_struct structs fst snd square_cls].
             eapply (lf_rrT LF); eauto.
         + destruct l as [|il wl el| | | | |]; try discriminate. destruct wl; try discriminate.
           destruct (angles_of el) as [la|] eqn:Eel; [|discriminate].
@@ -534,14 +534,14 @@ Section Sound.
           * destruct r as [ir cr sir sor pr| | | | | |]; try discriminate. cbn in Ear.
             destruct cr; try discriminate. destruct pr; try discriminate. inversion Ear; subst a.
             inversion Ha; subst new. intros x y Hch. apply chain2 in Hch as (y1 & H1 & H2).
-            cbn [Denote.denote] in H1, H2. rewrite chain_single. cbn [Denote.denote in_struct structs fst].
+            cbn [Denote.denote] in H1, H2. rewrite chain_single. cbn [Denote.denote in_struct structs fst square_cls].
             eapply (lf_rTr LF); eauto.
           * destruct r as [|ir wr er| | | | |]; try discriminate. destruct wr; try discriminate.
             destruct (angles_of er) as [ra|] eqn:Eer; [|discriminate].
             destruct er as [jr cr sjr sojr pr| | | | | |]; try discriminate. cbn in Eer.
             destruct cr; try discriminate. destruct pr; try discriminate. inversion Eer; subst a.
             inversion Ha; subst new. intros x y Hch. apply chain2 in Hch as (y1 & H1 & H2).
-            cbn [Denote.denote] in H1, H2. rewrite chain_single. cbn [Denote.denote in_struct structs fst snd].
+            cbn [Denote.denote] in H1, H2. rewrite chain_single. cbn [Denote.denote in_struct structs fst snd square_cls].
             eapply (lf_rTrT LF); eauto.
       - (* QURotationHWPRule *)
         apply andb_true_iff in Hc as [Hcl Hcr].
